@@ -6,6 +6,7 @@ import (
 	"io"
 	"net"
 	"reflect"
+	"sort"
 	"strings"
 	"time"
 
@@ -306,7 +307,25 @@ func buildEntries() []Entry {
 	qb := must(q.Encode())
 	// hand-made compressed response: question "a.bc", answer name = pointer to offset 12
 	comp := []byte{0, 9, 0x80, 0, 0, 1, 0, 1, 0, 0, 0, 0, 1, 'a', 2, 'b', 'c', 0, 0, 1, 0, 1, 0xC0, 12, 0, 1, 0, 1, 0, 0, 0, 30, 0, 4, 1, 2, 3, 4}
-	add("llmnr.DecodeMessage", nonNil(lb, qb, comp), func(in []byte) { llmnr.DecodeMessage(in) })
+	// one record of every common type with plausibly structured RDATA (a decoder that looks inside
+	// the RDATA of one type is reached through its own type code only)
+	typed := [][]byte{}
+	rdataFor := map[uint16][]byte{
+		1: {10, 1, 2, 3}, 28: {0x20, 1, 0xd, 0xb8, 0, 0, 0, 0, 0, 0, 0, 0, 0, 0, 0, 1}, 2: {2, 'n', 's', 0}, 5: {1, 'c', 0xC0, 12}, 12: {3, 'p', 't', 'r', 0},
+		15: {0, 10, 2, 'm', 'x', 0}, 16: {3, 'a', 'b', 'c', 2, 'd', 'e'}, 33: {0, 1, 0, 2, 0x1F, 0x90, 3, 's', 'r', 'v', 0}, 6: {1, 'a', 0, 1, 'b', 0, 0, 0, 0, 1, 0, 0, 0, 2, 0, 0, 0, 3, 0, 0, 0, 4, 0, 0, 0, 5},
+		41: {0, 10, 0, 8, 1, 2, 3, 4, 5, 6, 7, 8, 0, 3, 0, 2, 'h', 'i'}, 47: {1, 'n', 0, 0, 6, 0x40, 0, 0, 0, 0, 3}, 43: {0x12, 0x34, 8, 2, 0xAA, 0xBB}, 255: {}, 99: {1, 2, 3}}
+	for ty, rd := range rdataFor {
+		mm := llmnr.NewMessage()
+		mm.ID = ty
+		mm.AddQuestion("t.example", ty, 1)
+		mm.SetResponse()
+		mm.AddAnswer(llmnr.ResourceRecord{Name: "t.example", Type: ty, Class: 1, TTL: 30, RData: rd, RDLength: uint16(len(rd))})
+		if b := must(mm.Encode()); b != nil {
+			typed = append(typed, b)
+		}
+	}
+	sort.Slice(typed, func(i, j int) bool { return string(typed[i]) < string(typed[j]) })
+	add("llmnr.DecodeMessage", append(nonNil(lb, qb, comp), typed...), func(in []byte) { llmnr.DecodeMessage(in) })
 	es = append(es, Entry{Name: "llmnr.DecodeMessage.large", Seeds: pointerAmplification(false), Call: func(in []byte) { llmnr.DecodeMessage(in) }, Large: true})
 	off := func(in []byte) (int, []byte) {
 		if len(in) == 0 {
